@@ -509,8 +509,11 @@ def finish(ctx, pid, verdict, coverage, assumptions, level="model_checking"):
         cov["notes"] = ctx.notes
     ev = dict(property_id=pid, tier=ctx.tier, seed=ctx.seed, level=level, coverage=cov, assumptions=assumptions,
               wall_s=round(time.time() - ctx.t0, 1), violations=max(len(verdict.violations), verdict.total_violating))
-    os.makedirs(os.path.join(VERIF, "evidence"), exist_ok=True)
-    with open(os.path.join(VERIF, "evidence", pid + ".json"), "w") as f:
+    # evidence describes runs against /repo only: a run against a scratch worktree (VERIF_REPO, used to try seeded
+    # changes) leaves its record in the scratch directory
+    evdir = os.path.join(VERIF, "evidence") if not os.environ.get("VERIF_REPO") else ctx.path("evidence")
+    os.makedirs(evdir, exist_ok=True)
+    with open(os.path.join(evdir, pid + ".json"), "w") as f:
         json.dump(ev, f, indent=1, sort_keys=True)
         f.write("\n")
     if verdict.unreproduced and not verdict.violations:
